@@ -839,6 +839,26 @@ func execBld(ctor, ops string) string {
 	default:
 		return "bad-op"
 	}
+	// a builder with a random key gets a twin built by the explicit-key constructor with the key read
+	// back through Key() and the same parameters; every op is applied to both and Build() must agree
+	var twin *builder.GCSBuilder
+	if random {
+		k, _ := b.Key() // zero key if the constructor left a sticky error (the twin then has it too)
+		switch c[0] {
+		case "rpnm":
+			twin = builder.WithKeyPNM(k, u8(c[1]), u32(c[2]), u64(c[3]))
+		case "rpm":
+			twin = builder.WithKeyPM(k, u8(c[1]), u64(c[2]))
+		default:
+			twin = builder.WithKey(k)
+		}
+	}
+	both := func(f func(x *builder.GCSBuilder)) {
+		f(b)
+		if twin != nil {
+			f(twin)
+		}
+	}
 	var obs []string
 	var entries [][]byte // everything added so far (for the random-key self-check)
 	if ops != "." {
@@ -846,36 +866,36 @@ func execBld(ctor, ops string) string {
 			p := strings.Split(op, ":")
 			switch p[0] {
 			case "sk":
-				b.SetKey(key16(p[1]))
+				both(func(x *builder.GCSBuilder) { x.SetKey(key16(p[1])) })
 				if _, err := b.Key(); err == nil {
 					random = false
 				}
 			case "skh":
-				b.SetKeyFromHash(hash32(p[1]))
+				both(func(x *builder.GCSBuilder) { x.SetKeyFromHash(hash32(p[1])) })
 				if _, err := b.Key(); err == nil {
 					random = false
 				}
 			case "sp":
-				b.SetP(u8(p[1]))
+				both(func(x *builder.GCSBuilder) { x.SetP(u8(p[1])) })
 			case "sm":
-				b.SetM(u64(p[1]))
+				both(func(x *builder.GCSBuilder) { x.SetM(u64(p[1])) })
 			case "pre":
-				b.Preallocate(u32(p[1]))
+				both(func(x *builder.GCSBuilder) { x.Preallocate(u32(p[1])) })
 			case "e":
 				d := unhex(p[1])
-				b.AddEntry(d)
+				both(func(x *builder.GCSBuilder) { x.AddEntry(d) })
 				entries = append(entries, d)
 			case "es":
 				ds := parseItems(p[1])
-				b.AddEntries(ds)
+				both(func(x *builder.GCSBuilder) { x.AddEntries(ds) })
 				entries = append(entries, ds...)
 			case "w":
 				ds := parseItems(p[1])
-				b.AddWitness(wire.TxWitness(ds))
+				both(func(x *builder.GCSBuilder) { x.AddWitness(wire.TxWitness(ds)) })
 				entries = append(entries, ds...)
 			case "ah":
 				h := hash32(p[1])
-				b.AddHash(h)
+				both(func(x *builder.GCSBuilder) { x.AddHash(h) })
 				entries = append(entries, h.CloneBytes())
 			case "key":
 				k, err := b.Key()
@@ -913,6 +933,12 @@ func execBld(ctor, ops string) string {
 					ok = ok && m && err == nil
 				}
 				ok = ok && int(f.N()) == len(uniq)
+				if g, err := twin.Build(); err == nil {
+					gb, _ := g.NBytes()
+					ok = ok && string(gb) == string(nb) && g.P() == f.P()
+				} else {
+					ok = false
+				}
 				obs = append(obs, fmt.Sprintf("build=%d/R%s", f.N(), bit(ok)))
 			default:
 				return "bad-op"
